@@ -95,6 +95,14 @@ def plan(run):
                 if route == 'cli' and isinstance(rate, Fr):
                     continue
                 P.append((route, shape, rate, bs, opts))
+    # sample counts that are an exact multiple of the block length (no sample padding at all), per route and format
+    for shape, rate, bs in (((5, 6, 32), 32, (8, 8, 16)), ((4, 5, 128), 16, None), ((9, 4, 64), 32, (4, 8, 32)), ((5, 5, 256), 8, (4, 4, -1)), ((17, 18, 8), 32, (16, 16, 4))):
+        for route, opts in (('segy', {'fmt': 5}), ('segy', {'fmt': 1}), ('segy-iops', {'fmt': 5}), ('segy-iops', {'fmt': 1})):
+            P.append((route, shape, rate, bs, opts))
+    # a survey whose first inline is dead (all-zero traces): both float formats, both readers
+    for route, opts in (('segy', {'fmt': 5, 'dead': 1}), ('segy-iops', {'fmt': 5, 'dead': 1}), ('segy-iops', {'fmt': 1, 'dead': 1}), ('segy-iops', {'fmt': 5, 'dead': 1, 'ext': 1})):
+        P.append((route, (6, 5, 40), 16, None, opts))
+        P.append((route, (9, 9, 20), 32, (8, 8, 16), opts))
     return P
 
 
@@ -104,6 +112,8 @@ def _make(item):
     d = env.subdir(f'c01-{os.getpid()}')
     seed = par.G['seed'] + k
     cube = inputs.cube(shape, seed)
+    if opts.get('dead'):
+        cube[0] = 0.0
     p = os.path.join(d, f'f{k}.sgz')
     rate_true = Fr(opts.get('rate_true', rate)) if not isinstance(rate, str) else Fr(opts['rate_true'])
     res = {'k': k, 'written': False}
